@@ -7,7 +7,7 @@ RULE = ("Hypothesis draws RunSpecs with population sizes 1x, 1.5x, 2x, 3x the do
         "by construction), all cycle budgets, perturbed algorithm parameters, all modes and worker counts. Oracle: "
         "every generation has 1..population_size agents; exactly population_size for every optimizer except Bee "
         "Colony (constant across the run), Forest and Imperialist Competitive. Non-trivial = completed run of >= 2 "
-        "cycles with population != 1x or a pool mode; distinct = SHA-256 of the spec.")
+        "cycles with population != 1x or a pool mode; distinct = SHA-256 of the spec. About 15 % of the cases make the judged run on an optimizer instance that has already been used for an optimize() call on another task (reused instance).")
 ASSUMPTIONS = ["runs that raise are C06's business", "population_size is read from the configuration object that "
                "reached optimize()"]
 BUDGET = {"quick": 25, "thorough": 400}
